@@ -16,6 +16,7 @@ Documents whose validity is debatable (port "80", -1, code "404", non-hostname h
 only; how the server treated them is recorded in the evidence (lenient_accepts).
 """
 import asyncio
+import copy
 import json
 import time
 import random as _random
@@ -31,9 +32,9 @@ ENGINE = "web"
 TECHNIQUE = "generated edit documents (valid items + invalid item at every position) PUT to the live application; state before/after + reference edit model"
 BUDGET = {"quick": (2500, 12), "thorough": (12_000, 150)}
 WORKERS = {"quick": 2, "thorough": 16}
-REQUIRED = ["error_leaves_flow_unchanged", "success_equals_reference", "unknown_field_refused", "errors_after_applied_items"]
+REQUIRED = ["error_leaves_flow_unchanged", "error_leaves_backup_unchanged", "success_equals_reference", "unknown_field_refused", "errors_after_applied_items", "prelude_edits"]
 RULE = (
-    "case = (initial flow: http with/without response, with Host header / trailers / content-type variants, pristine or "
+    "case = (initial flow: http with/without response; trailers absent / present-but-empty / non-empty, empty header lists, empty or absent content; optionally an earlier ACCEPTED edit such as trailers: [] on the same flow; with Host header / trailers / content-type variants, pristine or "
     "already modified, or tcp) x (edit document: 0-4 valid request items, 0-4 valid response items, marked/comment, and "
     "0-2 invalid, debatable or exotic-but-parseable items (raw JSON literals 1e999/Infinity/NaN, 10**400, floats, booleans, nested "
     "containers, very long / astral / lone-surrogate strings in every typed field) -- unknown key, malformed port/code, malformed header/trailer list, non-string content, "
@@ -43,7 +44,7 @@ RULE = (
     "valid item or a flow that was already modified (atomicity matters), or a fully valid document with >= 2 items"
 )
 ASSUMPTIONS = [
-    "the 'backup' key of get_state() is bookkeeping and excluded from the before/after comparison (DESIGN C47)",
+    "the 'backup' key of get_state() is excluded from the state comparison (DESIGN C47); the flow's stored backup is compared separately (error_leaves_backup_unchanged)",
     "an answer >= 400 means the edit was refused; 200 means it was accepted",
     "documents with coercible or out-of-range values are not classified as valid or invalid; only atomicity is judged for them",
     "the reference model covers Content-Type values '', text/plain (optionally charset utf-8 / iso-8859-1) and application/json, no Content-Encoding, empty :authority",
@@ -210,10 +211,31 @@ def valid_response_items(r):
     return [(k, pool[k]()) for k in keys]
 
 
-def gen_doc(r, kind):
+PRELUDES = [
+    {"request": {"trailers": []}},
+    {"response": {"trailers": []}},
+    {"request": {"trailers": []}, "response": {"trailers": []}},
+    {"request": {"headers": []}},
+    {"response": {"headers": [], "trailers": []}},
+    {"request": {"content": ""}},
+    {"response": {"content": "", "reason": ""}},
+    {"comment": "", "marked": ""},
+    {"request": {"trailers": [["t", "1"]]}, "comment": "c"},
+    {"request": {}},
+    {},
+]
+
+
+def gen_doc(r, kind, force_trailers=False):
     """-> (doc as ordered dict, flat application-order list of (section, key, class|None))."""
     req = valid_request_items(r)
     resp = valid_response_items(r) if kind != "http-noresp" or r.random() < 0.5 else []
+    if force_trailers:
+        # a non-empty trailer list early in the document (applied before whatever fails later)
+        if r.random() < 0.7:
+            req = [("trailers", [["t-new", "x"]])] + [it for it in req if it[0] != "trailers"]
+        if kind == "http-resp" and r.random() < 0.7:
+            resp = [("trailers", [["t-new", "y"], ["t2", ""]])] + [it for it in resp if it[0] != "trailers"]
     top = []
     if req or r.random() < 0.2:
         top.append(["request", req])
@@ -298,13 +320,30 @@ def make_flow(r, i, worker):
             f.request.headers["Host"] = "old.example"
         if r.random() < 0.4:
             f.request.headers["Content-Type"] = r.choice(CT_VALUES)
-        if r.random() < 0.3:
+        # trailers: absent (None) / present but empty / non-empty; same for other containers
+        t = r.random()
+        if t < 0.25:
             f.request.trailers = http.Headers([(b"t-old", b"1")])
+        elif t < 0.5:
+            f.request.trailers = http.Headers()
+        if r.random() < 0.1:
+            f.request.headers = http.Headers()
+        if r.random() < 0.15:
+            f.request.content = r.choice([b"", None])
         if f.response is not None:
             if r.random() < 0.4:
                 f.response.headers["Content-Type"] = r.choice(CT_VALUES)
-            if r.random() < 0.3:
+            t = r.random()
+            if t < 0.25:
                 f.response.trailers = http.Headers([(b"t-old", b"1")])
+            elif t < 0.5:
+                f.response.trailers = http.Headers()
+            if r.random() < 0.1:
+                f.response.headers = http.Headers()
+            if r.random() < 0.15:
+                f.response.content = r.choice([b"", None])
+            if r.random() < 0.1:
+                f.response.reason = ""
     f.id = "c47c47c4-%04x-4000-8000-%012x" % (worker, i)
     modified = r.random() < 0.25
     if modified:
@@ -331,6 +370,9 @@ def first_failure(flat):
 
 def classify(flat, modified):
     """Mechanism of an error answer that left the flow changed -- from the document and the flow's history only."""
+    # All three mechanisms named below were repaired in /repo (known_findings.json: status "fixed"); a recurrence is a
+    # regression and must be reported unclassified.
+    return None
     if any(c and c.startswith("exotic-") for (_, _, c) in flat):
         return None  # exotic values can fail in ways none of the named mechanisms describes
     idx, cls = first_failure(flat)
@@ -358,13 +400,35 @@ async def amain(ctx):
             r = ctx.rng
             now = int(time.time())
             f, kind, modified = make_flow(r, i, ctx.worker)
-            doc, flat = gen_doc(r, kind)
+            prelude = None
+            if kind != "tcp" and r.random() < 0.35:
+                prelude = r.choice(PRELUDES)
+                if kind == "http-noresp":
+                    prelude = {k: v for k, v in prelude.items() if k != "response"}
+            doc, flat = gen_doc(r, kind, force_trailers=(prelude is not None and r.random() < 0.8) or r.random() < 0.15)
             rig.master.view.add([f])
             try:
                 ch, cq, cc = pol.build_cred("cookie-valid", token=rig.token, secret=rig.cookie_secret, cookie_name=rig.auth_cookie_name, now=now, rng=r)
                 xh, xq, xc, xf = pol.build_xsrf("valid-v1-header", cookie_name=rig.xsrf_cookie_name, now=now, rng=r)
                 headers = ch + xh + [("Cookie", "; ".join(f"{k}={v}" for k, v in cc + xc)), ("Content-Type", "application/json")]
-                before_state = strip(f.get_state())
+                if prelude is not None:
+                    # history: an earlier edit that must be ACCEPTED (leaves present-but-empty containers and a backup)
+                    p_snap = ref.snapshot(f)
+                    try:
+                        presp = await rig.request("PUT", f"/flows/{f.id}", headers, json.dumps(prelude).encode())
+                    except (asyncio.TimeoutError, ValueError, ConnectionError):
+                        ctx.count("inconclusive_cases")
+                        continue
+                    ctx.count("prelude_edits")
+                    verdict, exp = ref.apply(prelude, p_snap)
+                    if presp.status != 200 or verdict != "ok" or ref.snapshot(f) != exp:
+                        ctx.violation(
+                            "accepted-edit-differs-from-complete-application",
+                            {"flow": kind, "already_modified": modified, "body": json.dumps(prelude), "status": presp.status, "differing_fields": ref.diff(exp, ref.snapshot(f)) if verdict == "ok" else verdict},
+                        )
+                # independent copies: the flow must not be able to alias what we compare against
+                before_state = copy.deepcopy(strip(f.get_state()))
+                before_backup = copy.deepcopy(f._backup)
                 before_snap = ref.snapshot(f)
                 body_text = dumps(doc)
                 body = body_text.encode("ascii")
@@ -379,6 +443,7 @@ async def amain(ctx):
                     continue
                 after_state = strip(f.get_state())
                 after_snap = ref.snapshot(f)
+                after_backup = copy.deepcopy(f._backup)
             finally:
                 rig.master.view.remove([f])
             idx, cls = first_failure(flat)
@@ -386,6 +451,7 @@ async def amain(ctx):
             wit = {
                 "flow": kind,
                 "already_modified": modified,
+                "earlier_accepted_edit": None if prelude is None else json.dumps(prelude),
                 "body": short(body_text, 900),
                 "status": resp.status,
                 "answer": short(resp.body, 160),
@@ -397,11 +463,14 @@ async def amain(ctx):
                 raise Inconclusive(f"harness credentials were refused ({resp.status})")
             if resp.status >= 400:
                 ctx.count("error_leaves_flow_unchanged")
-                if n_before or modified:
+                if n_before or modified or prelude is not None:
                     ctx.count("errors_after_applied_items")
-                if after_state != before_state:
+                if after_state != before_state or after_snap != before_snap:
                     changed = ref.diff(before_snap, after_snap) or [k for k in after_state if after_state[k] != before_state.get(k)]
-                    ctx.violation("error-answer-but-flow-changed", dict(wit, changed_fields=changed[:12]), mechanism=classify(flat, modified))
+                    ctx.violation("error-answer-but-flow-changed", dict(wit, changed_fields=changed[:12]), mechanism=classify(flat, modified or prelude is not None))
+                ctx.count("error_leaves_backup_unchanged")
+                if after_backup != before_backup:
+                    ctx.violation("error-answer-but-backup-changed", dict(wit, had_backup=before_backup is not None, has_backup=after_backup is not None))
             elif resp.status == 200:
                 verdict, exp = ref.apply(doc, before_snap)
                 if verdict == "ok":
@@ -424,11 +493,11 @@ async def amain(ctx):
                 if resp.status == 200:
                     ctx.violation("unknown-field-accepted", wit)
             all_classes = tuple(sorted({f"{s if s != 'top' else ''}:{c}" for (s, _, c) in flat if c}))
-            nontrivial = (cls is not None and (n_before > 0 or modified)) or (cls is None and len(flat) >= 2)
+            nontrivial = (cls is not None and (n_before > 0 or modified or prelude is not None)) or (cls is None and len(flat) >= 2)
             ctx.case(
-                (kind, modified, all_classes, min(n_before, 2), resp.status // 100),
+                (kind, modified, None if prelude is None else tuple(sorted(prelude)), all_classes, min(n_before, 2), resp.status // 100),
                 nontrivial=nontrivial,
-                sample={"flow": kind, "already_modified": modified, "body": short(body_text, 500), "status": resp.status},
+                sample={"flow": kind, "already_modified": modified, "earlier_accepted_edit": prelude, "body": short(body_text, 500), "status": resp.status},
             )
     finally:
         await rig.stop()
